@@ -857,6 +857,9 @@ def run(ctx):
     _c03.r03_1b_slot_classes(ctx)
     _c03.r03_2_dependency_scan(ctx)
     _c03.r03_3_cancellation(ctx)
+    from rules import c02 as _c02s
+
+    _c02s.r02_3_spill(ctx)  # a recursive call returns the callee's value, not a restored local (shared with C02)
     return (
         "Def-use edge facts of every control construct's __teal__ compared with a reference lowering (R01.3); operand order/arity at "
         "emission sites and factories (R01.1); finite abstract evaluation of flattenBlocks' branch emission over all successor "
